@@ -11,8 +11,9 @@
 
   Environment (`Env`): is proxyauth set, the verdict of the socks5_auth hook as a function of the
   raw credentials, connection_strategy == eager, and the result of the eager OpenConnection.
-  Text rendering of the destination (inet_ntop / ascii-replace decoding) is *not* modelled: the
-  model reports (ATYP, raw address bytes, port); the harness renders them.
+  The text the code gives the destination is transcribed too (`hostText`): IPv4 dotted quad,
+  the RFC 5952 form glibc's inet_ntop produces for IPv6 (longest zero run, leftmost on ties,
+  embedded IPv4 for ::a.b.c.d and ::ffff:a.b.c.d), and `bytes.decode("ascii", "replace")` for names.
 -/
 import MitmVerif.Basic.Bytes
 import MitmVerif.Basic.Seg
@@ -308,5 +309,88 @@ def insOf : List Act → List In
   | [] => []
   | .ev e :: r => e :: insOf r
   | .complete :: r => insOf r
+
+/-! ### the address *text* Socks5Proxy stores in `context.server.address`
+    (`socket.inet_ntop(AF_INET / AF_INET6, …)` as implemented by glibc, and `decode("ascii", "replace")`) -/
+
+def digitChar (n : Nat) : Char := Char.ofNat (48 + n)
+
+/-- `"%u"` of a byte -/
+def decByte (n : Nat) : List Char :=
+  if n < 10 then [digitChar n]
+  else if n < 100 then [digitChar (n / 10), digitChar (n % 10)]
+  else [digitChar (n / 100), digitChar (n / 10 % 10), digitChar (n % 10)]
+
+/-- inet_ntop4 -/
+def textV4 : Bytes → List Char
+  | [a, b, c, d] => decByte a.toNat ++ '.' :: decByte b.toNat ++ '.' :: decByte c.toNat ++ '.' :: decByte d.toNat
+  | _ => []
+
+def hexChar (n : Nat) : Char := if n < 10 then Char.ofNat (48 + n) else Char.ofNat (87 + n)
+
+/-- `"%x"` of a 16-bit word -/
+def hexWord (w : Nat) : List Char :=
+  if w < 16 then [hexChar w]
+  else if w < 256 then [hexChar (w / 16), hexChar (w % 16)]
+  else if w < 4096 then [hexChar (w / 256), hexChar (w / 16 % 16), hexChar (w % 16)]
+  else [hexChar (w / 4096 % 16), hexChar (w / 256 % 16), hexChar (w / 16 % 16), hexChar (w % 16)]
+
+def words16 : Bytes → List Nat
+  | h :: l :: r => (h.toNat * 256 + l.toNat) :: words16 r
+  | _ => []
+
+structure Run where
+  base : Nat
+  len : Nat
+  deriving DecidableEq, Repr
+
+/-- `if (best.base == -1 || cur.len > best.len) best = cur;` -/
+def pickRun (cur best : Option Run) : Option Run :=
+  match cur, best with
+  | none, b => b
+  | some c, none => some c
+  | some c, some b => if c.len > b.len then some c else some b
+
+/-- glibc inet_ntop6: the scan for the longest run of zero words (leftmost wins) -/
+def scanRuns : List Nat → Nat → Option Run → Option Run → Option Run
+  | [], _, cur, best => pickRun cur best
+  | w :: r, i, cur, best =>
+    if w = 0 then
+      scanRuns r (i + 1) (match cur with | none => some ⟨i, 1⟩ | some c => some ⟨c.base, c.len + 1⟩) best
+    else scanRuns r (i + 1) none (pickRun cur best)
+
+def bestRun (ws : List Nat) : Option Run :=
+  match scanRuns ws 0 none none with
+  | some r => if r.len < 2 then none else some r
+  | none => none
+
+/-- the emit loop of inet_ntop6 from word index `i` on -/
+def emitV6 (best : Option Run) (w5 : Nat) (last4 : Bytes) : List Nat → Nat → List Char
+  | [], _ => []
+  | w :: r, i =>
+    match best with
+    | some b =>
+      if b.base ≤ i ∧ i < b.base + b.len then
+        (if i = b.base then [':'] else []) ++ emitV6 best w5 last4 r (i + 1)
+      else
+        let sep := if i ≠ 0 then [':'] else []
+        if i = 6 ∧ b.base = 0 ∧ (b.len = 6 ∨ (b.len = 5 ∧ w5 = 0xffff)) then sep ++ textV4 last4
+        else sep ++ hexWord w ++ emitV6 best w5 last4 r (i + 1)
+    | none => (if i ≠ 0 then [':'] else []) ++ hexWord w ++ emitV6 best w5 last4 r (i + 1)
+
+/-- inet_ntop6 -/
+def textV6 (ad : Bytes) : List Char :=
+  let ws := words16 ad
+  let best := bestRun ws
+  emitV6 best (ws.getD 5 0) (ad.drop 12) ws 0 ++
+    (match best with | some b => if b.base + b.len = 8 then [':'] else [] | none => [])
+
+/-- `host_bytes.decode("ascii", "replace")` -/
+def textDomain (ad : Bytes) : List Char :=
+  ad.map fun b => if b.toNat < 128 then Char.ofNat b.toNat else Char.ofNat 0xFFFD
+
+/-- the `host` of `context.server.address` -/
+def hostText (atyp : UInt8) (ad : Bytes) : List Char :=
+  if atyp = 1 then textV4 ad else if atyp = 4 then textV6 ad else textDomain ad
 
 end MitmVerif.C21
